@@ -109,11 +109,18 @@ def build_spec(api, feats, payload_at=None):
         S.add("/* leading comment")
         S.add("   over two lines */")
     S.add("%option " + " ".join(opts))
-    if "top" in feats or pr == "top":
+    if "top" in feats or pr == "top" or "bscomment" in feats:
         S.add("%top{")
         if "blank" in feats:
             S.add("")
         S.add("#include <stdio.h>")
+        if "bscomment" in feats:
+            # backslash-newline inside comments: a character like any other in a block comment, a line splice in a // comment
+            # (round-6 seed C20-r6m2)
+            S.add("/* a block comment whose line ends in a backslash \\")
+            S.add("   and goes on */")
+            S.add("// a line comment that is continued \\")
+            S.add("   on the next line")
         S.probe_file("top", *pay("top"))
         S.add("}")
     S.add("%{")
@@ -130,6 +137,11 @@ def build_spec(api, feats, payload_at=None):
             n = int(f.split(":")[1])
             head, tail = "static const char vf_pad[] = \"", "\";"
             S.add(head + "x" * (n - len(head) - len(tail)) + tail)
+    if "bscomment" in feats:
+        S.add("/* a block comment whose line ends in a backslash \\")
+        S.add("   and goes on */")
+        S.add("// a line comment that is continued \\")
+        S.add("   on the next line")
     S.probe_file("s1block", *pay("s1block"))
     S.add("%}")
     if "defs" in feats:
@@ -264,6 +276,11 @@ def build_spec(api, feats, payload_at=None):
         S.add("")
         S.add("/* section three")
         S.add(" */")
+    if "bscomment" in feats:
+        S.add("/* a block comment whose line ends in a backslash \\")
+        S.add("   and goes on */")
+        S.add("// a line comment that is continued \\")
+        S.add("   on the next line")
     S.probe_file("sect3", *pay("sect3"))
     if "sect3b" in feats:
         S.add("")
@@ -342,6 +359,17 @@ def run_one(job):
             elif n < 1 or n > (len(S.lines) + 1 if not split else (split + 1 if f == "p.l" else len(S.lines) - split + 1)):
                 res["msgs"].append(("linerange", "#line %d is outside the input file (%d lines)" % (n, len(S.lines))))
                 break
+        # --- attribution oracle: text that comes from the skeleton belongs to the output file, wherever user code stood before it
+        # (reported by a round-6 sub-agent about the unmodified tree: nothing switched back after a %top block)
+        if not noline:
+            cur = None
+            for j, l in enumerate(olines):
+                m = re.match(r'#line (\d+) "(.*)"', l)
+                if m:
+                    cur = m.group(2)
+                elif cur not in (None, "lex.yy.c") and re.match(r"#define (FLEX_SCANNER|YY_FLEX_MAJOR_VERSION|YY_BUF_SIZE|YY_NULL|EOB_ACT_CONTINUE_SCAN|YY_END_OF_BUFFER) ?", l):
+                    res["msgs"].append(("attribution", "generated code on output line %d (%s) is attributed to %s by the preceding #line directive" % (j + 1, l.strip()[:40], cur)))
+                    break
         if "--header-file=H.h" in cli:
             hp = os.path.join(wd, "H.h")
             if not os.path.exists(hp):
@@ -432,7 +460,7 @@ def run_one(job):
 
 
 LAYOUT_FEATS = ["blank", "top", "defs", "indent", "s2block", "multiline", "pctaction", "oraction", "scope", "xpattern", "pcomment", "trail", "contaction", "eof",
-                "two_blocks", "sect3b", "twofiles", "s2flush", "s2mid", "strcont", "longline", "ordollar"]
+                "two_blocks", "sect3b", "twofiles", "s2flush", "s2mid", "strcont", "longline", "ordollar", "bscomment"]
 BASE_FEATS = ["top", "defs", "eof"]
 
 
